@@ -202,6 +202,10 @@ def build_arg(a):
         return np.float32(v)
     if k == "complex":
         return complex(v, 0.5)
+    if k == "npcomplex128":            # NumPy complex scalars (what np.vdot / an element of a complex array returns): complex like the Python type
+        return np.complex128(complex(v, 0.5))
+    if k == "npcomplex64":
+        return np.complex64(complex(v, 0.5))
     if k == "str":
         return str(v)
     if k == "none":
@@ -213,7 +217,7 @@ def arg_json(a):
     """model request: exact value (real kinds), 0 for the kinds every class rejects"""
     if a["k"] in REAL_KINDS or a["k"] in ("npint64", "npfloat32"):
         return {"k": a["k"], "v": qstr(a["v"] if a["k"] != "bool" else int(bool(a["v"])))}
-    return {"k": a["k"], "v": "0/1"}
+    return {"k": "complex" if a["k"].startswith("npcomplex") else a["k"], "v": "0/1"}
 
 
 def arg_val(a):
@@ -436,7 +440,7 @@ def model_req(case):
         c = case["c"]
         cv = build_arg(c) if c["k"] not in ("str", "none") else 0
         return {"op": op, "ptype": case["ptype"], "nsites": case["nsites"], "tshape": list(t.shape), "vshape": list(v.shape),
-                "c": {"k": c["k"], "v": cq(cv)}, "t": [cq(z) for z in t.reshape(-1)], "v": [cq(z) for z in v.reshape(-1)],
+                "c": {"k": ("complex" if c["k"].startswith("npcomplex") else c["k"]), "v": cq(cv)}, "t": [cq(z) for z in t.reshape(-1)], "v": [cq(z) for z in v.reshape(-1)],
                 "symH": case["symH"], "symV": case["symV"], "atol": qstr(Fraction(1, 10 ** 8)), "rtol": qstr(Fraction(1, 10 ** 5))}
     if op == "ham.herm":
         return {"op": op, "cls": case["cls"], "symH": case.get("symH", False), "symV": case.get("symV", False)}
@@ -695,6 +699,8 @@ def oracle(case, o):
             why = "shape/field mismatch" if not (shape_ok and case["ptype"] == "fermion") else \
                 f"symmetry flags H={case['symH']} V={case['symV']} but tkin Hermitian={sc['tH']}, vint Hermitian={sc['vH']}, vint varchange={sc['vV']}, c kind {case['c']['k']}"
             bad.append((f"C15:accepts-invalid:{cls}:{'shape' if not shape_ok else 'symmetry'}", f"constructor accepted: {why}"))
+            if "_M" in o and o.get("herm") and finite(o["_M"].toarray()) and dmax(o["_M"] - o["_M"].conj().T) > 1e-9 * (1 + dmax(o["_M"])):
+                bad.append((f"C15:hermitian:{cls}", f"is_hermitian() is True but |H - H^dagger| = {dmax(o['_M'] - o['_M'].conj().T):.3g} (constant c of kind {case['c']['k']})"))
             return bad
         if o["herm"] != bool(case["symH"]):
             bad.append((f"C15:hermitian-flag:{cls}", f"is_hermitian() = {o['herm']} with HERMITIAN {'in' if case['symH'] else 'not in'} symm"))
@@ -991,7 +997,7 @@ def gen_molecular(tier, rng):
                             continue
                         yield mol_case(rng, n, kind, cplx=False, ints=False, symH=symH, symV=symV, c=cs[0], perturb=eps, where=where, dense=dense)
         # constant term kinds with and without the Hermitian flag
-        for c in cs + [{"k": "str", "v": 1}, {"k": "none", "v": 0}, {"k": "npint64", "v": 1}]:
+        for c in cs + [{"k": "str", "v": 1}, {"k": "none", "v": 0}, {"k": "npint64", "v": 1}, {"k": "npcomplex128", "v": 1}, {"k": "npcomplex64", "v": -2}]:
             if c["k"] in ("str", "none"):
                 continue   # np.array('1') / None as coefficient is outside the modelled input domain when accepted
             for symH in (False, True):
